@@ -34,6 +34,7 @@ def run(ctx: Ctx):
     run_by_name(ctx)
     import c07g
     c07g.run_graph(ctx)
+    run_field_chain(ctx)
 
 
 def run_main(ctx: Ctx):
@@ -395,3 +396,49 @@ def run_rewire(ctx: Ctx):
         want = 3.0 * x['xb'] + 2.0 * x['xa'] + 1.0
         if not systems.floats_close(y['yb'], want):
             ctx.violate('C07:stale-graph-after-swap', f'yb = {np.asarray(y["yb"]).tolist()} after swapping B for a component that also reads ya; expected {want.tolist()}', case)
+
+
+def run_field_chain(ctx: Ctx):
+    """A (scalar -> field) feeds B (field, scalar -> scalar); the field is compressed with an SVD of rank 12 (more than ten latent
+    coefficients) that represents every produced field exactly, so the system must equal the plain composition on every path"""
+    from amisc import Component, System, Variable
+    from amisc.compression import SVD
+    rng = ctx.rng
+    for n in range(ctx.pick(2, 10)):
+        dof, rank = rng.choice([(24, 12), (30, 13), (20, 11)])
+        grid = np.linspace(0.0, 1.0, dof)
+        shapes = np.stack([np.cos(k * np.pi * grid) for k in range(rank)], axis=0)
+        wts = np.linspace(1.0, 3.0, dof) * np.sin(3 * grid + 0.2 + n)
+        amp0 = np.array([0.1 * (k % 3) + 1.0 / (1 + k) for k in range(rank)]); amp1 = np.array([(-1) ** k / (1.0 + 0.3 * k) for k in range(rank)])
+
+        def model_a(inputs, _sh=shapes, _a0=amp0, _a1=amp1):
+            x = np.asarray(inputs['x'], dtype=float)
+            return {'f': (_a0 + x[..., None] * _a1) @ _sh}
+
+        def model_b(inputs, _w=wts):
+            f = np.asarray(inputs['f'], dtype=float)
+            return {'z': np.sum(_w * f, axis=-1) + np.asarray(inputs['s'], dtype=float) * f[..., 3]}
+        rs = np.random.RandomState(n)
+        dm = (rs.normal(size=(200, rank)) @ shapes).T
+        order = ('A', 'B') if n % 2 == 0 else ('B', 'A')
+        f = Variable('f', compression=SVD(rank=rank, coords=grid, data_matrix=dm))
+        xv = Variable('x', domain=(0, 2)); sv = Variable('s', domain=(1, 5), norm=rng.choice([None, 'minmax', 'linear(2, 1)']))
+        comps = {'A': Component(model_a, [xv], [f], name='A', vectorized=True), 'B': Component(model_b, [f, sv], [Variable('z')], name='B', vectorized=True)}
+        system = System(*[comps[c] for c in order], name=f'fc{n}')
+        N = 6
+        raw = {'x': np.array([rng.randint(0, 8) / 4 for _ in range(N)]), 's': np.array([1 + rng.randint(0, 16) / 4 for _ in range(N)])}
+        z_true = model_b({'f': model_a(raw)['f'], 's': raw['s']})['z']
+        case = {'field_chain': n, 'rank': rank, 'dof': dof, 'listing': order, 'x': raw['x'].tolist(), 's': raw['s'].tolist()}
+        ctx.case(case, nontrivial=True, kind=f'field-chain:rank{rank}')
+        norm = {'x': xv.normalize(raw['x']), 's': sv.normalize(raw['s'])}
+        for label, kw, xin in (('raw inputs', {'normalized_inputs': False}, raw), ('normalised inputs', {}, norm),
+                               ('true models', {'normalized_inputs': False, 'use_model': 'best'}, raw),
+                               ('override of A only', {'use_model': {'A': 'best'}}, norm), ('only z requested', {'targets': ['z']}, norm)):
+            try:
+                out = system.predict(xin, **kw)
+            except Exception as e:
+                ctx.violate('C07:predict-raises', f'{label}: {type(e).__name__}: {e}', {**case, 'path': label}); continue
+            got = np.ravel(np.asarray(out['z'], dtype=float))
+            if got.shape != z_true.shape or not np.allclose(got, z_true, rtol=1e-8, atol=1e-8):
+                ctx.violate('C07:not-the-composition', f'{label}: z = {got.tolist()}, the composition B(A(x)) gives {z_true.tolist()} (field coupling variable with {rank} '
+                            f'latent coefficients)', {**case, 'path': label}); break
